@@ -195,8 +195,10 @@ func c16Mutate(rnd *rand.Rand, c *config.PikeConfig, origins []string, seq *c16S
 			}
 		case "loc_rewrite_set":
 			if loc != nil && loc.Name != "l0" {
-				loc.Rewrites = []string{loc.Prefixes[0] + "/*:/rw/$1"}
-				return op + " " + loc.Name
+				// the same pattern with one of several replacements (also replacing an earlier one)
+				repl := []string{"/rw/$1", "/v2/$1", "/$1"}[rnd.Intn(3)]
+				loc.Rewrites = []string{loc.Prefixes[0] + "/*:" + repl}
+				return op + " " + loc.Name + " " + repl
 			}
 		case "loc_rewrite_unset":
 			if loc != nil && len(loc.Rewrites) > 0 {
@@ -633,6 +635,17 @@ func c16Run(r *hx.Run, bin string, seq *c16Seq, rnd *rand.Rand) {
 				return "last compress profile removed: the compresses section is gone from the file"
 			},
 		}
+	case "rewrite_replacement_changed":
+		script = []func() string{
+			func() string {
+				logical.Locations[1].Rewrites = []string{logical.Locations[1].Prefixes[0] + "/*:/rw/$1"}
+				return "loc_rewrite_set l1 /rw/$1"
+			},
+			func() string {
+				logical.Locations[1].Rewrites = []string{logical.Locations[1].Prefixes[0] + "/*:/v2/$1"}
+				return "loc_rewrite_set l1 /v2/$1 (same pattern, other replacement)"
+			},
+		}
 	case "upstream_h2c_toggled":
 		script = []func() string{
 			func() string { logical.Upstreams[1].EnableH2C = true; return "up_h2c_set u1" },
@@ -954,7 +967,7 @@ func c16Run(r *hx.Run, bin string, seq *c16Seq, rnd *rand.Rand) {
 }
 
 func c16(r *hx.Run) {
-	r.Rule = "two real pike processes per sequence. The live one starts on a base configuration (2 caches, 2 upstreams, 2 locations, 2 servers, 1 compress profile) and receives 2-6 random valid updates (32 mutation kinds: set/unset min length, filter, compress profile, cache, location list; add/remove server, location, upstream, compress profile; set/unset rewrites, added headers, added query, upstream Accept-Encoding, upstream enableH2C, upstream server list; override/remove bestCompression) through the admin PUT /config or a single in-place write of the file, each completion observed through the update.done hook, under continuous traffic on an unchanged server; the fresh one is started on the final configuration. A probe suite derived from the final configuration (servers x 4 prefixes x sizes around the effective threshold x 3 content types x cacheable or not x Accept-Encoding, each twice) is run against both and compared field by field (status, label, encoding, encoded and decoded bytes, headers, which origin saw which path/query/headers), plus cache binding between servers, the retained hit of a key cached before the updates, and (one sequence) that a removed server stops listening. Eleven directed sequences add: enableH2C of an upstream set, unset and set again, the last compress profile (an override of bestCompression) removed so that the whole section disappears from the saved file, bestCompression overridden then removed, a server removed and re-added, cache switch/rename, a level set then unset, two servers removed at once, a cache sharing a store removed, restart-only cache settings changed, and a configuration saved while the previous one (with an upstream whose health endpoint is slow) is still being applied. Non-trivial/distinct = step sequence."
+	r.Rule = "two real pike processes per sequence. The live one starts on a base configuration (2 caches, 2 upstreams, 2 locations, 2 servers, 1 compress profile) and receives 2-6 random valid updates (32 mutation kinds: set/unset min length, filter, compress profile, cache, location list; add/remove server, location, upstream, compress profile; set/unset rewrites, added headers, added query, upstream Accept-Encoding, upstream enableH2C, upstream server list; override/remove bestCompression) through the admin PUT /config or a single in-place write of the file, each completion observed through the update.done hook, under continuous traffic on an unchanged server; the fresh one is started on the final configuration. A probe suite derived from the final configuration (servers x 4 prefixes x sizes around the effective threshold x 3 content types x cacheable or not x Accept-Encoding, each twice) is run against both and compared field by field (status, label, encoding, encoded and decoded bytes, headers, which origin saw which path/query/headers), plus cache binding between servers, the retained hit of a key cached before the updates, and (one sequence) that a removed server stops listening. Twelve directed sequences add: a rewrite rule whose replacement changes while its pattern stays, enableH2C of an upstream set, unset and set again, the last compress profile (an override of bestCompression) removed so that the whole section disappears from the saved file, bestCompression overridden then removed, a server removed and re-added, cache switch/rename, a level set then unset, two servers removed at once, a cache sharing a store removed, restart-only cache settings changed, and a configuration saved while the previous one (with an upstream whose health endpoint is slow) is still being applied. Non-trivial/distinct = step sequence."
 	r.Assume = []string{"restart-only settings (cache size/hit-for-pass/store, server log format, admin) are never changed", "gzip/brotli are deterministic, so equal levels give equal bytes", "addresses differ between the two processes and are not compared"}
 	bin, err := hx.BuildPike(r.Scratch)
 	if err != nil {
@@ -966,7 +979,7 @@ func c16(r *hx.Run) {
 	n := r.Pick(8, 400)
 	sem := make(chan struct{}, 8)
 	var wg sync.WaitGroup
-	for i := 0; i < n+11 && !r.TooMany(); i++ {
+	for i := 0; i < n+12 && !r.TooMany(); i++ {
 		seq := &c16Seq{ID: i, CheckRemovedListener: i%8 == 0}
 		if i == n {
 			seq.Directed = "best_override_then_remove"
@@ -1000,6 +1013,9 @@ func c16(r *hx.Run) {
 		}
 		if i == n+10 {
 			seq.Directed = "upstream_h2c_toggled"
+		}
+		if i == n+11 {
+			seq.Directed = "rewrite_replacement_changed"
 		}
 		seed := rnd.Int63()
 		wg.Add(1)
